@@ -200,18 +200,33 @@ func (t *flatCallTracer) CaptureExit(output []byte, gasUsed uint64, err error) {
 	if t.config.IncludePrecompiles {
 		return
 	}
+	// call has been nested in parent: under the running Aspect frame if an Aspect issued it,
+	// under the parent call frame otherwise
+	parent := &t.tracer.callstack[len(t.tracer.callstack)-1]
+	if parent.joinPoint != types.JoinPointRunType_Unknown {
+		aspect := &parent.JoinPoints[len(parent.JoinPoints)-1]
+		aspect.Calls = t.stripPrecompileCall(aspect.Calls)
+	} else {
+		parent.Calls = t.stripPrecompileCall(parent.Calls)
+	}
+}
+
+// stripPrecompileCall removes the last call of the list if it is a CALL/STATICCALL to a precompile.
+func (t *flatCallTracer) stripPrecompileCall(calls []callFrame) []callFrame {
+	if len(calls) == 0 {
+		return calls
+	}
 	var (
-		// call has been nested in parent
-		parent = t.tracer.callstack[len(t.tracer.callstack)-1]
-		call   = parent.Calls[len(parent.Calls)-1]
-		typ    = call.Type
-		to     = call.To
+		call = calls[len(calls)-1]
+		typ  = call.Type
+		to   = call.To
 	)
 	if typ == vm.CALL || typ == vm.STATICCALL {
 		if t.isPrecompiled(*to) {
-			t.tracer.callstack[len(t.tracer.callstack)-1].Calls = parent.Calls[:len(parent.Calls)-1]
+			return calls[:len(calls)-1]
 		}
 	}
+	return calls
 }
 
 func (t *flatCallTracer) CaptureTxStart(gasLimit uint64) {
